@@ -29,7 +29,8 @@ ASSUMPTIONS = [
 OBLIGATIONS = {"batch:exhaustive": 100, "batch:random-large": 20,
                "batch:reject": 50, "sitebatch": 20, "opm:product": 50,
                "opm:roundtrip": 50, "opm:roundtrip-renamed": 10,
-               "opm:find": 50, "opm:bare-scalar": 5, "opm:prefix-values": 5}
+               "opm:find": 50, "opm:bare-scalar": 5, "opm:prefix-values": 5,
+               "opm:rebuilt-manager": 20, "batch:caller-modifies-result": 20}
 
 
 def _hy():
@@ -49,7 +50,20 @@ def check_partition(ctx, n, k, case):
                       case, {"n": n, "k": k, "i": i, "exc": repr(e)})
             return False
         ctx.api("get_batch")
-        batches.append(np.asarray(b))
+        batches.append(np.array(b, copy=True))
+        # what a caller does with its batch (shifting it to absolute positions, say)
+        # is nobody else's business: the next call answers the same
+        if isinstance(b, np.ndarray) and b.size and b.flags.writeable and (n + k + i) % 4 == 0:
+            ctx.tag("batch:caller-modifies-result")
+            b += 1000
+            b[-1] = -1
+            b2 = hy.get_batch(n, k, i)
+            ctx.api("get_batch")
+            ctx.check("batch.unaffected-by-callers-edits",
+                      np.array_equal(np.asarray(b2), batches[-1]),
+                      "get_batch|later-call-sees-callers-edits", case,
+                      lambda: {"n": n, "k": k, "i": i, "second": np.asarray(b2)[:6],
+                               "first": batches[-1][:6]})
     key = "get_batch|partition"
     allv = np.concatenate(batches) if batches else np.array([])
     ok = True
@@ -212,6 +226,12 @@ def run_opm_case(ctx, case):
     opts, context, rename = case["options"], case["context"], case["rename"]
     ctx.evaluated()
     opm = hy.OptionManager("verif", **context)
+    if case.get("rebuild", (len(str(opts)) % 3 == 0)):
+        # the manager already enumerated another grid (other names, other sizes)
+        ctx.tag("opm:rebuilt-manager")
+        opm.from_cartesian_product(zz_other=[1, 2, 3], **{k: as_list(v)[:1]
+                                                          for k, v in opts.items()})
+        opm.from_cartesian_product(**opts)
     opm.from_cartesian_product(**opts)
     ctx.api("from_cartesian_product")
     keys = list(opts.keys())
